@@ -51,6 +51,11 @@ CHECKS["C12"] = dict(
    text="Theorems in coq/theories/Props/C12.v. Laws-free: entry i of a(x)b is a[i/|b|]*b[i mod |b|] (left operand on the high-order qubits) and the rayon shift/mask path equals the nested loop for all sizes. Ring level: the tensor product is associative and the squared norm multiplicative; inner_product is linear in its second and conjugate-linear in its first argument, Hermitian-symmetric, <a|a> = ||a||^2; |n> has a single unit amplitude; the Hartree-Fock index sets exactly the e high-order bits. Real level: Cauchy-Schwarz; normalise returns v/||v|| of norm 1 or ZeroNorm exactly for the zero vector; fidelity lies in [0,1], is symmetric and 1 on identical states; fs_dist = acos(sqrt F) lies in [0, pi/2], is 0 on identical states and symmetric. The correspondence runs every constructor at every size 0..12(14), State::new, tensor products on both sides of the 64-amplitude threshold, inner/normalise/fidelity and all arithmetic operators through the real crate against the model, and evaluates range / finiteness / symmetry / cos^2 d = F / triangle inequality / ray invariance on the implementation's outputs.",
    note="PARTIAL: the triangle inequality of fs_dist and phase/ray invariance of the fidelity are not proved (checked numerically on 150(800) random triples per run); libm acos/hypot are not modelled; float rounding not modelled. Defect found and repaired: fs_dist(s,s) = NaN / fs_fidelity > 1 by rounding (fix commit 9959af3).",
    design="6 C12")
+CHECKS["C02"] = dict(
+   technique="Coq proof (inverse-CDF loop = Born intervals, fallback unreachable; probabilities = squared norms of projections and partition ||psi||^2; measuring any nonzero state with any draw succeeds and returns the renormalised projection; outcome-bit order; measure_n shots) + differential correspondence inside coqc with the draw controlled through the hook, boundary search by bisection, collapse / repeat / measure_n checks",
+   text="Theorems in coq/theories/Props/C02.v. Ring level: the un-normalised probability of outcome k is the squared norm of the projection P_k psi; the projection keeps the amplitudes of the outcome's subspace and zeroes the rest; bit i of the outcome belongs to qubit indices[i]. Real level, for every register size, qubit list, nonzero state (normalised or not) and draw r in [0,1): the probabilities sum to ||psi||^2; the sampling loop returns k exactly when r lies in the k-th interval of lengths ||P_k psi||^2/||psi||^2 (so each outcome occurs with its Born probability and a zero-probability outcome never occurs, the fallback being unreachable); measure succeeds and returns the bits of k together with P_k psi/||P_k psi||, same width. measure_n is, by the model, the list of measure() results of the same input for its own draws; 0 shots is the documented error. The correspondence drives State::measure with the draw fixed through the hook on every qubit subset/order x four bases x entangled/sparse states for 1-3(4) qubits, locates the outcome-vs-draw step function on the real code by bisection and compares it with the cumulative Born weights, checks the collapsed state against the renormalised projection, repeats the measurement with five draws, and compares measure_n shots as multisets with single measurements.",
+   note="PARTIAL: X/Y/custom-basis measurements are modelled as basis change + computational measurement + inverse change (tied by correspondence; the conjugation theorem is not stated separately); 'repeating reproduces the outcome with certainty' is checked numerically (draws kept 1e-9 away from 0 and 1 because of rounding residues); RNG quality and shot scheduling are trusted. Four defects found and repaired (fix commits 1076013 ccbd0ed 1bc3f47 87c36ba); one known finding (squared-norm underflow).",
+   design="6 C02")
 NOT_YET = {}
 
 def main():
